@@ -1,5 +1,10 @@
 import WfProofs.ArchiveWrite
 import WfProofs.ArchiveInstances
+import WfProofs.ArchiveAny
+import WfProofs.ArchiveReader
+import WfProofs.ArchiveCount
+import WfProofs.ArchiveClean
+import WfProofs.ArchiveService
 /-!
 # C33 — backup archives restore exactly what was backed up
 
@@ -126,13 +131,13 @@ name, its resource, exactly its secret (or none) and exactly its generation (or 
 theorem C33_roundtrip {Y : Type} (A : Aead) (hA : A.Lawful) (C : Codec Y) (hC : C.Lawful)
     (pw : Option Bytes) (rnd : Nat → Bytes × Bytes) (hr : rndWf rnd) (b : Backup Y) (hb : b.wf) :
     read A C pw (write A C pw rnd b) = .ok ⟨manifestOf pw b, expectedEntries b⟩ :=
-  read_write hA hC pw pw hr b hb (fun _ _ => Or.inr (Or.inr rfl))
+  read_write hA hC pw pw hr b hb.wfDot (fun _ _ => Or.inr (Or.inr rfl))
 
 /-- An archive written without a password restores under any reader password. -/
 theorem C33_roundtrip_clear_any_reader {Y : Type} (A : Aead) (hA : A.Lawful) (C : Codec Y) (hC : C.Lawful)
     (rpw : Option Bytes) (rnd : Nat → Bytes × Bytes) (hr : rndWf rnd) (b : Backup Y) (hb : b.wf) :
     read A C rpw (write A C none rnd b) = .ok ⟨manifestOf none b, expectedEntries b⟩ :=
-  read_write hA hC none rpw hr b hb (fun _ _ => Or.inr (Or.inl rfl))
+  read_write hA hC none rpw hr b hb.wfDot (fun _ _ => Or.inr (Or.inl rfl))
 
 /-- non-vacuity: the hypotheses are satisfiable (a lawful AEAD, a lawful codec, well-formed
 randomness) and the statement is about non-trivial data: three deployments (one without a
@@ -167,7 +172,7 @@ theorem C33_wrong_password {Y : Type} (A : Aead) (hA : A.Lawful) (C : Codec Y) (
       (∀ d ∈ b.deps, secretOf b d = none) ∧ ∀ e ∈ r.entries, e.secret = none) := by
   have hfail : (∃ d ∈ b.deps, secretOf b d ≠ none) →
       read A C (some pw') (write A C (some pw) rnd b) = .error .invalidTag := fun hex =>
-    read_write_fail hA hC pw (some pw') hr b hb .invalidTag rfl
+    read_write_fail hA hC pw (some pw') hr b hb.wfDot .invalidTag rfl
       (fun st n k x hdot => readMember_wrong_pw hA pw pw' hne hr rfl st n k x hdot) hex
   refine ⟨hfail, ?_⟩
   intro r hrd
@@ -179,7 +184,7 @@ theorem C33_wrong_password {Y : Type} (A : Aead) (hA : A.Lawful) (C : Codec Y) (
       have := hfail ⟨d, hd, by rw [hs]; exact fun h => by cases h⟩
       rw [this] at hrd; cases hrd
   refine ⟨hnone, ?_⟩
-  have hok := read_write hA hC (some pw) (some pw') hr b hb (fun d hd => Or.inl (hnone d hd))
+  have hok := read_write hA hC (some pw) (some pw') hr b hb.wfDot (fun d hd => Or.inl (hnone d hd))
   rw [hok] at hrd
   cases hrd
   intro e he
@@ -193,7 +198,7 @@ theorem C33_no_password {Y : Type} (A : Aead) (hA : A.Lawful) (C : Codec Y) (hC 
     (pw : Bytes) (rnd : Nat → Bytes × Bytes) (hr : rndWf rnd) (b : Backup Y) (hb : b.wf)
     (hex : ∃ d ∈ b.deps, secretOf b d ≠ none) :
     read A C none (write A C (some pw) rnd b) = .error .noPassword :=
-  read_write_fail hA hC pw none hr b hb .noPassword rfl
+  read_write_fail hA hC pw none hr b hb.wfDot .noPassword rfl
     (fun st n k x hdot => readMember_no_pw pw rfl st n k x hdot) hex
 
 /-- non-vacuity: encrypted with the empty password, read with `"x"` and with none. -/
@@ -232,3 +237,355 @@ example : prefixAead.Lawful ∧
       (encrypt prefixAead [112, 119] (List.replicate 16 7) (List.replicate 12 9) [1, 2, 3])) = some .invalidTag ∧
     errOf (decrypt prefixAead [112, 119] (List.replicate 43 0)) = some .tooShort :=
   ⟨prefixAead_lawful, by decide, by decide, by decide⟩
+
+/-! # Extension: beyond valid names, beyond written archives, before the writer
+
+Everything above is about backups with distinct *valid* names read back from the archive the writer
+produced.  Below: (1) how much of that hypothesis is needed and what holds with none of it, (2) the reader
+on **any** archive, (3) what the writer emits, counted, (4) the cleaning step of `archive.py` and the backup
+service's path through it. -/
+
+/-! ## names: what is needed, what holds regardless -/
+
+/-- The round trip needs of the names only that they are distinct and contain no dot — upper case, Unicode, the
+empty name, names of any length restore exactly (valid DNS-1035 labels are such names: `C33_roundtrip` is the
+special case). -/
+theorem C33_roundtrip_dotfree {Y : Type} (A : Aead) (hA : A.Lawful) (C : Codec Y) (hC : C.Lawful)
+    (pw : Option Bytes) (rnd : Nat → Bytes × Bytes) (hr : rndWf rnd) (b : Backup Y)
+    (hdot : ∀ d ∈ b.deps, '.' ∉ depName d) (hnd : (b.deps.map depName).Nodup) :
+    read A C pw (write A C pw rnd b) = .ok ⟨manifestOf pw b, expectedEntries b⟩ :=
+  read_write hA hC pw pw hr b ⟨hdot, hnd⟩ (fun _ _ => Or.inr (Or.inr rfl))
+
+/-- non-vacuity: `"Web App"`, the empty name, a 70-character name, `"日本"` — none valid, all dot-free -/
+example :
+    let b : Backup Nat :=
+      { deps := [(some "Web App".toList, 10), (some [], 11), (some (List.replicate 70 'x'), 12), (some "日本".toList, 13)],
+        secrets := [([], 21), ("日本".toList, 22)], gens := some [("Web App".toList, 7)], «namespace» := [], timestamp := [] }
+    (∀ d ∈ b.deps, validName (depName d) = false) ∧ (∀ d ∈ b.deps, '.' ∉ depName d) ∧ (b.deps.map depName).Nodup ∧
+    (okOf (read prefixAead tokenCodec (some [1])
+        (write prefixAead tokenCodec (some [1]) (fun k => (List.replicate 16 k, List.replicate 12 k)) b))).map
+      (fun r => r.entries.map (fun e => (e.cr, e.secret, e.generation))) =
+        some [(10, none, some 7), (11, some 21, none), (12, none, none), (13, some 22, none)] := by
+  refine ⟨by decide, by decide, by decide, by decide⟩
+
+/-- Both remaining hypotheses are needed (so "valid names" in the property is not decoration): with a dot in
+one name, or with one name used twice, there are backups — all other names valid, lawful codec and cipher — that
+do **not** restore to what was backed up.  `x` next to `x.secret`: the resource of `x.secret` is stored as
+`x.secret.yaml` and comes back as the *secret* of `x`; `app` twice: one entry instead of two. -/
+theorem C33_domain_tight :
+    (∃ b : Backup Nat, (b.deps.map depName).Nodup ∧ (b.deps.map depName).all (fun n => n.count '.' ≤ 1) = true ∧
+      read prefixAead tokenCodec none (write prefixAead tokenCodec none (fun _ => ([], [])) b) ≠
+        .ok ⟨manifestOf none b, expectedEntries b⟩) ∧
+    (∃ b : Backup Nat, (∀ d ∈ b.deps, validName (depName d) = true) ∧
+      read prefixAead tokenCodec none (write prefixAead tokenCodec none (fun _ => ([], [])) b) ≠
+        .ok ⟨manifestOf none b, expectedEntries b⟩) := by
+  let b1 : Backup Nat :=
+    { deps := [(some "x".toList, 1), (some "x.secret".toList, 2)], secrets := [], gens := none,
+      «namespace» := [], timestamp := [] }
+  let b2 : Backup Nat :=
+    { deps := [(some "app".toList, 1), (some "app".toList, 2)], secrets := [], gens := none,
+      «namespace» := [], timestamp := [] }
+  refine ⟨⟨b1, by decide, by decide, ?_⟩, ⟨b2, by decide, ?_⟩⟩
+  · intro h
+    have := congrArg (fun x => (okOf x).map fun r => r.entries.map fun e => (e.name, e.cr, e.secret)) h
+    revert this; decide
+  · intro h
+    have := congrArg (fun x => (okOf x).map fun r => r.entries.length) h
+    revert this; decide
+
+/-- what the two witnesses restore to instead -/
+example :
+    let b1 : Backup Nat :=
+      { deps := [(some "x".toList, 1), (some "x.secret".toList, 2)], secrets := [], gens := none,
+        «namespace» := [], timestamp := [] }
+    let b2 : Backup Nat :=
+      { deps := [(some "app".toList, 1), (some "app".toList, 2)], secrets := [], gens := none,
+        «namespace» := [], timestamp := [] }
+    (okOf (read prefixAead tokenCodec none (write prefixAead tokenCodec none (fun _ => ([], [])) b1))).map
+        (fun r => r.entries.map fun e => (e.name, e.cr, e.secret)) = some [("x".toList, 1, some 2)] ∧
+    (okOf (read prefixAead tokenCodec none (write prefixAead tokenCodec none (fun _ => ([], [])) b2))).map
+        (fun r => r.entries.map fun e => (e.name, e.cr, e.secret)) = some [("app".toList, 2, none)] := by
+  constructor <;> decide
+
+/-- For **every** name whatsoever (dots, slashes, empty, any length): the secret and generation members built from it
+are always taken for exactly that — an encrypted secret is never mistaken for anything the reader would hand out
+without the password — and the resource member is taken for a resource or (name ending in `.secret`) a clear
+secret, never ignored. -/
+theorem C33_classification_any_name (n : Name) :
+    classify (n ++ secEncSuffix) = some (.secEnc, n) ∧ classify (n ++ secClearSuffix) = some (.secClear, n) ∧
+    classify (n ++ metaSuffix) = some (.gmeta, n) ∧
+    (classify (n ++ crSuffix) = some (.cr, n) ∨ ∃ n', classify (n ++ crSuffix) = some (.secClear, n')) :=
+  ⟨classify_secEnc_any n, classify_secClear_any n, classify_meta_any n, classify_cr_any n⟩
+
+example : classify ("a.b/c.meta.json".toList ++ secEncSuffix) = some (.secEnc, "a.b/c.meta.json".toList) ∧
+    classify ("x.secret".toList ++ crSuffix) = some (.secClear, "x".toList) ∧
+    classify ([] ++ crSuffix) = some (.cr, []) := by decide
+
+/-- "Encrypted secrets cannot be read with a different password", with **no** hypothesis on the names: whatever the
+deployments are called (invalid, dotted, duplicated, nameless), an archive written with a password and holding at
+least one secret is refused with `InvalidTag` by every reader holding another password; it is read only when no
+deployment has a secret. -/
+theorem C33_wrong_password_any_backup {Y : Type} (A : Aead) (hA : A.Lawful) (C : Codec Y) (hC : C.Lawful)
+    (pw pw' : Bytes) (hne : pw' ≠ pw) (rnd : Nat → Bytes × Bytes) (hr : rndWf rnd) (b : Backup Y) :
+    ((∃ d ∈ b.deps, secretOf b d ≠ none) →
+      read A C (some pw') (write A C (some pw) rnd b) = .error .invalidTag) ∧
+    (∀ r, read A C (some pw') (write A C (some pw) rnd b) = .ok r → ∀ d ∈ b.deps, secretOf b d = none) := by
+  have hfail : (∃ d ∈ b.deps, secretOf b d ≠ none) →
+      read A C (some pw') (write A C (some pw) rnd b) = .error .invalidTag := fun hex =>
+    read_write_fail_any hC pw (some pw') b .invalidTag
+      (fun n k x => alwaysErr_wrong_pw hA pw pw' hne _ _ x (hr k).1 (hr k).2 n) hex
+  refine ⟨hfail, fun r hrd d hd => ?_⟩
+  cases hs : secretOf b d with
+  | none => rfl
+  | some s =>
+    have := hfail ⟨d, hd, by rw [hs]; exact fun h => by cases h⟩
+    rw [this] at hrd; cases hrd
+
+/-- … and by a reader holding no password with "no password provided". -/
+theorem C33_no_password_any_backup {Y : Type} (A : Aead) (C : Codec Y) (hC : C.Lawful)
+    (pw : Bytes) (rnd : Nat → Bytes × Bytes) (b : Backup Y) (hex : ∃ d ∈ b.deps, secretOf b d ≠ none) :
+    read A C none (write A C (some pw) rnd b) = .error .noPassword :=
+  read_write_fail_any hC pw none b .noPassword (fun n _ _ => alwaysErr_no_pw n _) hex
+
+/-- non-vacuity: dotted, duplicated and nameless deployments, one secret among them -/
+example :
+    let b : Backup Nat :=
+      { deps := [(some "x.secret".toList, 10), (some "App".toList, 11), (some "App".toList, 12), (none, 13)],
+        secrets := [("App".toList, 21)], gens := none, «namespace» := [], timestamp := [] }
+    let rnd : Nat → Bytes × Bytes := fun k => (List.replicate 16 k, List.replicate 12 (k + 1))
+    ¬ b.wf ∧ (∃ d ∈ b.deps, secretOf b d ≠ none) ∧
+    errOf (read prefixAead tokenCodec (some [120]) (write prefixAead tokenCodec (some [121]) rnd b)) = some .invalidTag ∧
+    errOf (read prefixAead tokenCodec none (write prefixAead tokenCodec (some [121]) rnd b)) = some .noPassword := by
+  refine ⟨fun h => absurd (h.1 _ (List.mem_cons_self ..)) (by decide), ⟨(some "App".toList, 11), by decide, by decide⟩,
+    by decide, by decide⟩
+
+/-! ## the reader on any archive -/
+
+/-- **Any** archive — any list of members in any order, written by anyone: if one member carries an encrypted-secret
+name and holds `encrypt pw salt nonce x`, every read with a different password, or with none, fails (with that
+member's `InvalidTag` / "no password", or an earlier member's error).  The writer's archive is the special case. -/
+theorem C33_any_archive_wrong_password_fails {Y : Type} (A : Aead) (hA : A.Lawful) (C : Codec Y)
+    (pw salt nonce x : Bytes) (hs : salt.length = saltLength) (hn : nonce.length = nonceLength)
+    (n : Name) (ms : List Member) (hm : (n ++ secEncSuffix, encrypt A pw salt nonce x) ∈ ms)
+    (rpw : Option Bytes) (hne : rpw ≠ some pw) : ∃ e, read A C rpw ms = .error e := by
+  have hbad : ∀ st : RState Y, ∃ e, readMember A C rpw st (n ++ secEncSuffix, encrypt A pw salt nonce x) = .error e := by
+    intro st
+    cases rpw with
+    | none => exact ⟨_, alwaysErr_no_pw n _ st⟩
+    | some p' =>
+      have : p' ≠ pw := fun e => hne (by rw [e])
+      exact ⟨_, alwaysErr_wrong_pw hA pw p' this salt nonce x hs hn n st⟩
+  obtain ⟨e, he⟩ := readMembers_some_error ms ⟨_, hm, hbad⟩ ({} : RState Y)
+  exact ⟨e, by simp only [Archive.read, he]⟩
+
+example :
+    let blob := encrypt prefixAead [112] (List.replicate 16 1) (List.replicate 12 2) [1, 5]
+    let ms : List Member := [("web.yaml".toList, [1, 4]), ("web.secret.enc".toList, blob),
+      ("manifest.json".toList, tokenCodec.encManifest ⟨1, [], [], 1, true⟩), ("web.secret.enc".toList, blob)]
+    (okOf (read prefixAead tokenCodec (some [112]) ms)).map (fun r => r.entries.map fun e => (e.cr, e.secret)) =
+      some [(4, some 5)] ∧
+    errOf (read prefixAead tokenCodec (some [113]) ms) = some .invalidTag ∧
+    errOf (read prefixAead tokenCodec none ms) = some .noPassword := by decide
+
+/-- `read_backup_archive` refines a specification that never runs it (`WfModel/ArchiveSpec.lean`), on **every**
+archive it accepts — duplicates, look-alike names, members in any order, members it ignores: the entries are the
+distinct deployment names of the resource members in order of first appearance; each entry carries the *last*
+resource member of its name, the *last* secret member of its name (clear or encrypted, whichever is last; an
+encrypted one opened with the reader's password), the `generation` of the *last* meta member of its name; the
+manifest is the last manifest member; no two entries share a name. -/
+theorem C33_reader_refines_spec {Y : Type} (A : Aead) (C : Codec Y) (pw : Option Bytes) (ms : List Member)
+    (r : Contents Y) (h : read A C pw ms = .ok r) :
+    r.entries.map Entry.view = specEntries A C pw ms ∧ (r.entries.map (·.name)).Nodup ∧
+      specManifest C ms = some (RawManifest.ofManifest r.manifest) :=
+  read_spec h
+
+/-- non-vacuity: a hand-made archive with two resources for `web` (the second wins, `web` stays first), a clear
+secret overridden by an encrypted one, two meta members, an ignored member, the manifest last -/
+example :
+    let blob := encrypt prefixAead [112] (List.replicate 16 1) (List.replicate 12 2) [1, 6]
+    let ms : List Member := [("web.yaml".toList, [1, 4]), ("db.yaml".toList, [1, 9]), ("web.secret.yaml".toList, [1, 5]),
+      ("web.meta.json".toList, tokenCodec.encMeta 3), ("README.md".toList, [7, 7]), ("web.yaml".toList, [1, 8]),
+      ("web.secret.enc".toList, blob), ("web.meta.json".toList, tokenCodec.encMeta 4),
+      ("manifest.json".toList, tokenCodec.encManifest ⟨1, [], [], 2, true⟩)]
+    specEntries prefixAead tokenCodec (some [112]) ms =
+      [("web".toList, some 8, some 6, some 4), ("db".toList, some 9, none, none)] ∧
+    (okOf (read prefixAead tokenCodec (some [112]) ms)).map (fun r => r.entries.map Entry.view) =
+      some [("web".toList, some 8, some 6, some 4), ("db".toList, some 9, none, none)] := by decide
+
+/-- The reader's password matters for encrypted members only, on any archive: a read without password that
+succeeds met no encrypted-secret member at all, and an archive without such members reads the same — result or
+error — under every password and under none. -/
+theorem C33_reader_password_use {Y : Type} (A : Aead) (C : Codec Y) (ms : List Member) :
+    (∀ r, read A C none ms = .ok r → ∀ m ∈ ms, ∀ dn, classify m.1 ≠ some (.secEnc, dn)) ∧
+    ((∀ m ∈ ms, ∀ dn, classify m.1 ≠ some (.secEnc, dn)) → ∀ pw pw', read A C pw ms = read A C pw' ms) := by
+  constructor
+  · intro r h
+    simp only [Archive.read] at h
+    cases hm : readMembers A C none {} ms with
+    | error e => simp [hm] at h
+    | ok st => exact readMembers_no_enc_of_ok_none ms {} st hm
+  · intro h pw pw'
+    simp only [Archive.read, readMembers_pw_irrelevant pw pw' ms {} h]
+
+example :
+    let ms : List Member := [("web.yaml".toList, [1, 4]), ("web.secret.yaml".toList, [1, 5]),
+      ("manifest.json".toList, tokenCodec.encManifest ⟨1, [], [], 1, false⟩)]
+    noEnc ms = true ∧
+    (okOf (read prefixAead tokenCodec none ms)).map (fun r => r.entries.map Entry.view) =
+      some [("web".toList, some 4, some 5, none)] ∧
+    read prefixAead tokenCodec (some [9]) ms = read prefixAead tokenCodec none ms := by
+  refine ⟨by decide, by decide, ?_⟩
+  exact (C33_reader_password_use prefixAead tokenCodec _).2 (noEnc_spec (by decide)) _ _
+
+/-! ## the writer, counted -/
+
+/-- Every backup whatsoever, with or without password: the archive has one manifest, one resource member per
+deployment, one secret member per deployment that has a secret, one generation member per deployment that has a
+generation — nothing else, nothing twice. -/
+theorem C33_member_count {Y : Type} (A : Aead) (C : Codec Y) (pw : Option Bytes) (rnd : Nat → Bytes × Bytes)
+    (b : Backup Y) :
+    (write A C pw rnd b).length =
+      1 + b.deps.length + (secPairs b.secrets b.deps).length + (metaPairs b.gens b.deps).length := by
+  simp only [write, writeTagged, List.length_map, List.length_cons, length_writeDeps]
+  omega
+
+/-- Every backup whatsoever: the encrypted members are, in archive order, the deployments that have a secret, and
+the `i`-th of them is sealed with the `i`-th pair of `os.urandom` draws — each draw seals exactly one member (so
+salts / nonces are never shared between members as long as `os.urandom` does not repeat itself); without a
+password no member is encrypted. -/
+theorem C33_fresh_draws {Y : Type} (A : Aead) (C : Codec Y) (rnd : Nat → Bytes × Bytes) (b : Backup Y) :
+    (∀ p, ((writeTagged A C (some p) rnd b).filter isEnc).map (·.member) =
+      (secPairs b.secrets b.deps).zipIdx.map (sealAt A C p rnd)) ∧
+    (writeTagged A C none rnd b).filter isEnc = [] := by
+  constructor
+  · intro p
+    simp only [writeTagged, List.filter_cons]
+    have : isEnc ⟨.manifest, manifestName, (manifestName, C.encManifest (manifestOf (some p) b))⟩ = false := rfl
+    simp only [this, Bool.false_eq_true, if_false]
+    exact enc_writeDeps p b.deps 0
+  · simp only [writeTagged, List.filter_cons]
+    have : isEnc ⟨.manifest, manifestName, (manifestName, C.encManifest (manifestOf none b))⟩ = false := rfl
+    simp only [this, Bool.false_eq_true, if_false]
+    exact clear_writeDeps b.deps 0
+
+/-- non-vacuity: three deployments, two with a secret: 1 + 3 + 2 + 1 members; draws 0 and 1, in that order -/
+example :
+    let b : Backup Nat :=
+      { deps := [(some "a".toList, 10), (some "b".toList, 11), (some "c".toList, 12)],
+        secrets := [("c".toList, 23), ("a".toList, 21)], gens := some [("b".toList, 5)], «namespace» := [], timestamp := [] }
+    let rnd : Nat → Bytes × Bytes := fun k => (List.replicate 16 k, List.replicate 12 (k + 100))
+    (write prefixAead tokenCodec (some [1]) rnd b).length = 7 ∧
+    (secPairs b.secrets b.deps).zipIdx = [(("a".toList, 21), 0), (("c".toList, 23), 1)] ∧
+    (((writeTagged prefixAead tokenCodec (some [1]) rnd b).filter isEnc).map fun t => t.member.2.take 17) =
+      [List.replicate 16 0 ++ [100], List.replicate 16 1 ++ [101]] := by decide
+
+/-! ## cleaning (`clean_crd_metadata`, `clean_secret_metadata`, `_clean_metadata`) and the service's path -/
+
+open ArchiveClean GenArchiveClean ArchiveService in
+/-- What the cleaning model and the service-path model rely on, re-read from `archive.py` and
+`manage_api/backup_service.py` on every run: `_clean_metadata` is pop-status / fetch metadata / allow-list loop /
+fetch annotations / prefix loop / pop-if-empty / return, on the keys named here; the two public functions pass the
+two allow-lists; the writer names members after `metadata.name`, which both allow-lists keep; `generation` is *not*
+kept (so the service has to read it first, and does: name and generation are read before the resource is cleaned,
+secrets and generations are keyed by that name, the cleaned resources are what is archived). -/
+theorem C33_clean_source_shape :
+    cleanStatements = 7 ∧ keepLoop = true ∧ prefixLoop = true ∧ returnsDoc = true ∧
+    statusKey = "status".toList ∧ metadataKey = "metadata".toList ∧ annotationsKey = "annotations".toList ∧
+    emptyPopKey = annotationsKey ∧ statusKey ≠ metadataKey ∧
+    crdKeepName = "_CRD_METADATA_KEEP" ∧ secretKeepName = "_SECRET_METADATA_KEEP" ∧
+    crdKeep = ["annotations".toList, "labels".toList, "name".toList, "namespace".toList] ∧
+    secretKeep = ["annotations".toList, "finalizers".toList, "labels".toList, "name".toList, "namespace".toList] ∧
+    sysPrefixes = ["kubectl.kubernetes.io/".toList, "deploy.llamaindex.ai/".toList] ∧
+    writerMetaKey = metadataKey ∧ crdKeep.contains writerNameKey = true ∧ secretKeep.contains writerNameKey = true ∧
+    writerNameKey ≠ annotationsKey ∧
+    svcMetaKey = metadataKey ∧ svcNameKey = writerNameKey ∧ svcGenKey = "generation".toList ∧
+    crdKeep.contains svcGenKey = false ∧ svcGenKey ≠ annotationsKey ∧
+    svcReadsBeforeClean = true ∧ svcPassesCleaned = true ∧ svcGensKeyedByName = true ∧ svcSecretsKeyedByName = true := by
+  decide
+
+open ArchiveClean GenArchiveClean ArchiveService in
+/-- Cleaning never changes the name a resource is archived under: for every document,
+`metadata.name` after `clean_crd_metadata` / `clean_secret_metadata` is `metadata.name` before (absent stays
+absent) — the writer, which reads the name from the *cleaned* resource, and the service, which keyed secrets and
+generations by the name of the *raw* one, agree. -/
+theorem C33_clean_keeps_name {V : Type} (d : Doc V) :
+    nameOf (cleanCrd d) = nameOf d ∧ nameOf (cleanSecret d) = nameOf d :=
+  ⟨nameOf_cleanCrd d, nameOf_cleanSecret d⟩
+
+open ArchiveClean GenArchiveClean in
+/-- Cleaning is idempotent, for every allow-list: a restored (already cleaned) resource that is backed up again is
+archived unchanged. -/
+theorem C33_clean_idempotent {V : Type} (keep : List Key) (d : Doc V) : clean keep (clean keep d) = clean keep d :=
+  clean_idem keep d
+
+open ArchiveClean GenArchiveClean in
+/-- Exactly what cleaning removes and keeps, for every document and allow-list: the top level loses `status` and
+nothing else; the metadata keeps exactly its allow-listed keys, values untouched; the annotations that come out are
+exactly the non-system annotations that went in, in order — and the key is gone altogether when none is left (or
+when annotations are not allow-listed). -/
+theorem C33_clean_exact {V : Type} (keep : List Key) (d : Doc V) :
+    (clean keep d).top = d.top.filter (fun kv => kv.1 != statusKey) ∧
+    ((clean keep d).meta.isSome = d.meta.isSome) ∧
+    (∀ m, d.meta = some m → ∃ m', (clean keep d).meta = some m' ∧
+      m'.fields = m.fields.filter (fun kv => keep.contains kv.1) ∧
+      (∀ key, metaField key (clean keep d) = if keep.contains key then metaField key d else none) ∧
+      ∀ a, m'.anns = some a ↔
+        a ≠ [] ∧ keep.contains annotationsKey = true ∧ ∃ a0, m.anns = some a0 ∧ a = a0.filter fun kv => !isSystem kv.1) := by
+  refine ⟨rfl, by simp [clean], ?_⟩
+  intro m hm
+  refine ⟨cleanMeta keep m, by simp [clean, hm], rfl, fun key => metaField_clean keep key d, fun a => cleanMeta_anns keep m a⟩
+
+open ArchiveClean GenArchiveClean in
+/-- non-vacuity: a resource as the API returns it -/
+example :
+    let d : Doc Nat :=
+      { top := [("apiVersion".toList, 1), ("status".toList, 2), ("spec".toList, 3)],
+        «meta» := some {
+          fields := [("name".toList, 4), ("uid".toList, 5), ("generation".toList, 6), ("labels".toList, 7),
+                     ("managedFields".toList, 8), ("finalizers".toList, 9)],
+          anns := some [("kubectl.kubernetes.io/last-applied-configuration".toList, 10), ("team".toList, 11),
+                        ("deploy.llamaindex.ai/display-name".toList, 12)] } }
+    (cleanCrd d).top = [("apiVersion".toList, 1), ("spec".toList, 3)] ∧
+    (cleanCrd d).meta.map (fun m => (m.fields, m.anns)) =
+      some ([("name".toList, 4), ("labels".toList, 7)], some [("team".toList, 11)]) ∧
+    (cleanSecret d).meta.map (fun m => m.fields.map Prod.snd) = some [4, 7, 9] ∧
+    nameOf (cleanCrd d) = some 4 ∧ metaField "generation".toList (cleanCrd d) = none ∧
+    (cleanCrd { d with «meta» := some { fields := [], anns := some [("kubectl.kubernetes.io/x".toList, 1)] } }).meta.map
+      (fun m => m.anns) = some none := by decide
+
+open ArchiveClean GenArchiveClean ArchiveService in
+/-- The backup service's path, end to end, for every cluster state: resources that each have a name, names distinct
+and dot-free (valid names are), any paired secrets, any generations, any other metadata — cleaned, keyed, archived
+(with or without password) and read back: one entry per deployment, in order, under its cluster name, carrying the
+*cleaned* resource, exactly its paired secret (or none) and the generation it had in the cluster (which cleaning
+removed from the resource itself). -/
+theorem C33_service_roundtrip {V Y : Type} (A : Aead) (hA : A.Lawful) (C : Codec Y) (hC : C.Lawful)
+    (pw : Option Bytes) (rnd : Nat → Bytes × Bytes) (hr : rndWf rnd) (str : V → Name) (int : V → Int)
+    (inj : Doc V → Y) (raws : List (Doc V)) (sec : Name → Option Y) (ns ts : Str)
+    (hname : ∀ r ∈ raws, (metaField svcNameKey r).isSome)
+    (hdot : ∀ r ∈ raws, '.' ∉ svcName str r) (hnd : (raws.map (svcName str)).Nodup) :
+    read A C pw (write A C pw rnd (svcBackup str int inj raws sec ns ts)) =
+      .ok ⟨manifestOf pw (svcBackup str int inj raws sec ns ts), svcExpected str int inj raws sec⟩ :=
+  svc_read_write hA hC pw hr str int inj raws sec ns ts hname hdot hnd
+
+open ArchiveClean GenArchiveClean ArchiveService in
+/-- non-vacuity: two resources as the API returns them (uid, generation, status), one paired secret; the entries
+come back under `web` / `db` with the cleaned resources (one top-level key, one metadata key left), the secret of
+`db`, generations 17 and 3 -/
+example :
+    let str : Nat → Name := fun v => if v = 4 then "web".toList else "db".toList
+    let int : Nat → Int := fun v => Int.ofNat v
+    let inj : Doc Nat → Nat := fun d => d.top.length * 10 + (d.meta.map fun m => m.fields.length).getD 0
+    let mk (nm gen : Nat) : Doc Nat :=
+      { top := [("spec".toList, 1), ("status".toList, 2)],
+        «meta» := some { fields := [("name".toList, nm), ("generation".toList, gen), ("uid".toList, 9)], anns := none } }
+    let raws := [mk 4 17, mk 5 3]
+    let sec : Name → Option Nat := fun n => if n = "db".toList then some 77 else none
+    let rnd : Nat → Bytes × Bytes := fun k => (List.replicate 16 k, List.replicate 12 k)
+    (∀ r ∈ raws, (metaField svcNameKey r).isSome) ∧ (∀ r ∈ raws, '.' ∉ svcName str r) ∧
+    (raws.map (svcName str)).Nodup ∧
+    (okOf (read prefixAead tokenCodec (some [1])
+        (write prefixAead tokenCodec (some [1]) rnd (svcBackup str int inj raws sec [] [])))).map
+      (fun r => r.entries.map Entry.view) =
+        some [("web".toList, some 11, none, some 17), ("db".toList, some 11, some 77, some 3)] := by
+  refine ⟨by decide, by decide, by decide, by decide⟩
